@@ -170,8 +170,10 @@ def cacheSize : Nat := 2 ^ applyCacheBits
 
 def Cache.empty : Cache := List.replicate cacheSize none
 
-/-- `(progp->id_number ^ (intptr_t) fun ^ ((intptr_t) fun >> APPLY_CACHE_BITS)) & cache_mask` -/
-def slotOf (id ptr : Nat) : Nat := (id ^^^ ptr ^^^ (ptr >>> applyCacheBits)) &&& (cacheSize - 1)
+/-- `(progp->id_number ^ (intptr_t) fun ^ ((intptr_t) fun >> APPLY_CACHE_BITS)) & cache_mask`: the right-hand side of
+    `ix = ...` in apply_low, REGENERATED from the clang AST on every run (`NV.Gen.C07.slotOfGen`); its shape and range
+    are the bridging lemmas `slotOf_formula` / `slotOf_lt` (NV/C07/Tie.lean) -/
+def slotOf (id ptr : Nat) : Nat := slotOfGen id ptr
 
 /-- what apply_low does, seen from its caller -/
 inductive ApplyRes where
@@ -269,6 +271,7 @@ inductive Ev where
   | line (s : String)                                 -- echoed harness line
   | call (origin oid fn : String)
   | run (file fn : String) (old : Int)
+  | args (vs : List Int)                              -- the parameters as the callee finds them
   | err (msg : String)
   | ret (v : String)
   | vars (oid : String) (vs : List Int)
@@ -278,6 +281,7 @@ def Ev.render : Ev → String
   | .line s => s
   | .call o oid fn => s!"call {o} {oid} {fn}"
   | .run f n old => s!"run {f}:{n} {old}"
+  | .args vs => vs.foldl (fun s v => s ++ " " ++ toString v) "args"
   | .err m => s!"err {m}"
   | .ret v => s!"ret {v}"
   | .vars oid vs => vs.foldl (fun s v => s ++ " " ++ toString v) s!"vars {oid}"
@@ -304,11 +308,33 @@ def functionName (w : World) (p index : Nat) : String :=
   | some fr => ((w.progs[fr.prog]?.bind (·.ft[fr.fidx]?)).map (·.nameStr)).getD "?"
   | none => "?"
 
+/-! ### arguments: setup_variables (src/frame.c)
+
+`setup_variables (actual, local, num_arg)`: with more arguments than parameters the surplus is popped
+(`pop_n_elems (actual - num_arg)`), then the locals are pushed; with fewer, `push_undefineds` fills the missing
+parameters and the locals.  The frame the callee sees therefore has exactly `num_arg` parameter cells: the first
+`min actual num_arg` arguments in order, then undefined (the number 0). -/
+
+/-- the parameter cells after setup_variables -/
+def setupVariables (actual : List Int) (numArg : Nat) : List Int :=
+  if actual.length ≥ numArg then actual.take numArg                      -- pop the surplus
+  else actual ++ List.replicate (numArg - actual.length) 0               -- push_undefineds
+
+/-- `def.num_arg` of the function a frame runs: the runtime entry that names table index `fidx` -/
+def numArgOf (P : Program) (fidx : Nat) : Nat :=
+  (P.rt.findSome? (fun e => match e with
+    | .defn fi na => if fi == fidx then some na else none
+    | .inh .. => none)).getD 0
+
+/-- the arguments the generated bodies pass: local / `::` calls and the calls inside functionals, function pointers -/
+def localArgs : List Int := [11, 12]
+def fpArgs : List Int := [21, 22, 23]
+
 mutual
-/-- run the body in frame `fr` of an object whose program is `obProg` -/
-def execBody (w : World) (obProg : Nat) : Nat → Frame → List Int → List Ev → Run
-  | 0, _, vars, evs => { vars, evs, out := .crash }
-  | fuel + 1, fr, vars, evs =>
+/-- run the body in frame `fr` of an object whose program is `obProg`, called with the arguments `actual` -/
+def execBody (w : World) (obProg : Nat) : Nat → Frame → List Int → List Int → List Ev → Run
+  | 0, _, _, vars, evs => { vars, evs, out := .crash }
+  | fuel + 1, fr, actual, vars, evs =>
     match w.progs[fr.prog]? with
     | none => { vars, evs, out := .crash }
     | some P =>
@@ -320,6 +346,9 @@ def execBody (w : World) (obProg : Nat) : Nat → Frame → List Int → List Ev
         | none => { vars, evs, out := .crash }
         | some old =>
           let evs := Ev.run P.name fe.nameStr old :: evs
+          -- functions with parameters log them
+          let na := numArgOf P fr.fidx
+          let evs := if na > 0 then Ev.args (setupVariables actual na) :: evs else evs
           let vars := vars.set vi (codeOf P.name fe.nameStr)
           -- programs with a second own variable (`private int w;`, the same name at several levels) store there too
           let vars := if P.nvd ≥ 2 then vars.set (vi + 1) (codeOf P.name fe.nameStr + 5000) else vars
@@ -361,7 +390,8 @@ def execOps (w : World) (obProg : Nat) : Nat → Frame → List CallOp → List 
       match fuel with
       | 0 => { vars, evs, out := .crash }
       | fuel' + 1 =>
-        let r := execBody w obProg fuel' f vars evs
+        let a := match op with | .fp _ => fpArgs | _ => localArgs
+        let r := execBody w obProg fuel' f a vars evs
         match r.out with
         | .ok => execOps w obProg fuel' fr rest r.vars r.evs
         | _ => r
@@ -441,7 +471,7 @@ inductive CallRes where
   deriving Repr, BEq, DecidableEq
 
 /-- apply_low (with the global as it stands) on the object of program p, then the body -/
-def callFn (w : World) (s : St) (p ptr : Nat) (key : NameKey) : CallRes × St :=
+def callFn (w : World) (s : St) (p ptr : Nat) (key : NameKey) (args : List Int := []) : CallRes × St :=
   match s.obj? p with
   | none => (.noobj, s)
   | some ob =>
@@ -451,7 +481,7 @@ def callFn (w : World) (s : St) (p ptr : Nat) (key : NameKey) : CallRes × St :=
     | .crash => (.crash, s)
     | .fail => (.fail, s)
     | .call q k fio vio =>
-      let run := execBody w p bodyFuel { prog := q, fidx := k, fio := fio, vio := vio } ob.vars s.out
+      let run := execBody w p bodyFuel { prog := q, fidx := k, fio := fio, vio := vio } args ob.vars s.out
       let tag := ((w.progs[q]?.bind (fun Q => (Q.ft[k]?).map (fun e => s!"\"{Q.name}:{e.nameStr}\""))).getD "?")
       let s : St := { (s.setVars p run.vars) with out := run.evs }
       match run.out with
@@ -460,8 +490,8 @@ def callFn (w : World) (s : St) (p ptr : Nat) (key : NameKey) : CallRes × St :=
       | .ok => (.ok tag, s)
 
 /-- `apply (fun, ob, n, where)` -/
-def applyFn (w : World) (s : St) (origin p ptr : Nat) (key : NameKey) : CallRes × St :=
-  callFn w { s with callOrigin := origin } p ptr key
+def applyFn (w : World) (s : St) (origin p ptr : Nat) (key : NameKey) (args : List Int := []) : CallRes × St :=
+  callFn w { s with callOrigin := origin } p ptr key args
 
 /-- load_object of program p's file unless its object exists: the inherited files first (in the order of the inherit
     statements, each loaded when the compiler first misses it), then the object; for every new object the master's
@@ -488,7 +518,7 @@ def St.vars (s : St) (label : String) (p : Nat) : St :=
   | none => s
 
 /-- one `call <origin> <oid> <fn>` command -/
-def doCall (w : World) (s : St) (o : Origin) (oid : String) (fn : String) (key : NameKey) : St :=
+def doCall (w : World) (s : St) (o : Origin) (oid : String) (fn : String) (key : NameKey) (args : List Int := []) : St :=
   let s := { s with out := Ev.call o.str oid fn :: s.out }
   match (s.labels.find? (·.1 == oid)).map (·.2) with
   | none => { s with out := Ev.ret "!noobj" :: s.out }
@@ -497,7 +527,7 @@ def doCall (w : World) (s : St) (o : Origin) (oid : String) (fn : String) (key :
     let ptr := if o == .com then key + 1000003 else key
     -- co / com go through the LPC caller: apply (do_call, caller, .., ORIGIN_DRIVER) consumes the global, then
     -- f_call_other stores ORIGIN_CALL_OTHER right before its apply_low
-    let (r, s) := applyFn w { s with callOrigin := 0 } o.code p ptr key
+    let (r, s) := applyFn w { s with callOrigin := 0 } o.code p ptr key args
     let swept := o == .rco
     match r with
     | .crash => { s with out := Ev.line "crash model-out-of-range" :: s.out }
@@ -596,7 +626,7 @@ def doHeartBeat (w : World) (s : St) (oid fn : String) : St :=
             else match setupNewFrame w ob.prog idx with
               | none => { s with out := Ev.line "crash model-out-of-range" :: evs }
               | some fr =>
-                let run := execBody w ob.prog bodyFuel fr ob.vars evs
+                let run := execBody w ob.prog bodyFuel fr [] ob.vars evs
                 let s := s.setVars ob.prog run.vars
                 match run.out with
                 | .crash => { s with out := Ev.line "crash model-out-of-range" :: run.evs }
